@@ -171,7 +171,7 @@ def split_params(ftype):
 
 def ast_cache_key():
     srcs = vf.repo_sources() + [INST, LIB, os.path.abspath(__file__)]
-    return vf.file_hash(srcs, "c16-objmodel-v14")
+    return vf.file_hash(srcs, "c16-objmodel-v16")
 
 
 def _clang_dump(unit, prefix=""):
@@ -1550,7 +1550,13 @@ def describe_class(idx, an, disp, c):
                 order = "release_first_guarded" if guarded else "release_first_unguarded"
         elif d["assign_map"] is None:
             order = "no_assign"
-        d["rc"] = {"counter": rcm[0] if rcm else None, "copy_events": ce, "assign_events": ae, "destroy_events": de,
+        ctype = next((f.get("type", "") for f in fields if rcm and f["name"] == rcm[0]), "")
+        inner = re.sub(r"\bconst\b|\bvolatile\b|\*|&", "", ctype).strip()
+        mm = re.match(r"^(?:std::)?atomic<(.*)>$", inner)
+        inner = (mm.group(1) if mm else inner).strip()
+        WIDE = ("int", "unsigned int", "unsigned", "long", "unsigned long", "long long", "unsigned long long", "size_t", "std::size_t", "int32_t", "uint32_t", "int64_t", "uint64_t", "ptrdiff_t", "long int", "unsigned long int")
+        narrow = bool(rcm) and inner not in WIDE          # a counter of any other type (short, char, a typedef such as Residu_t = uint16_t) is not known to be at least as wide as int
+        d["rc"] = {"counter_type": ctype, "counter_wide": not narrow, "counter": rcm[0] if rcm else None, "copy_events": ce, "assign_events": ae, "destroy_events": de,
                    "copy_incs": any(e[0] == "inc" for e in ce), "destroy_decs": any(e[0] == "dec" for e in de),
                    "destroy_frees": any(e[0] == "delete" for e in de), "assign_order": order, "assign_guarded": guarded}
     # methods: own + inherited
@@ -2210,7 +2216,7 @@ class Mirror:
         rc = self.d.get("rc")
         if rc is None:
             return False
-        return bool(rc["copy_incs"] and rc["destroy_decs"] and rc["destroy_frees"]
+        return bool(rc["copy_incs"] and rc["destroy_decs"] and rc["destroy_frees"] and rc.get("counter_wide", True)
                     and rc["assign_order"] in ("acquire_first", "release_first_guarded", "no_assign"))
 
     def pure(self, m):
@@ -2372,9 +2378,9 @@ def emit_coq(descs, meta):
         else:
             order = {"acquire_first": "AcquireFirst", "release_first_guarded": "ReleaseFirstGuarded",
                      "release_first_unguarded": "ReleaseFirstUnguarded", "no_assign": "NoAssign", "none": "NoProtocol"}[rc["assign_order"]]
-            rcs = "Some {| rc_counter := %s; rc_copy_incs := %s; rc_destroy_decs := %s; rc_destroy_frees := %s; rc_assign := %s |}" % (
+            rcs = "Some {| rc_counter := %s; rc_copy_incs := %s; rc_destroy_decs := %s; rc_destroy_frees := %s; rc_assign := %s; rc_counter_wide := %s |}" % (
                 coq_str(rc["counter"] or ""), str(bool(rc["copy_incs"])).lower(), str(bool(rc["destroy_decs"])).lower(),
-                str(bool(rc["destroy_frees"])).lower(), order)
+                str(bool(rc["destroy_frees"])).lower(), order, str(bool(rc.get("counter_wide", True))).lower())
         out.append("Definition %s : class_desc := {|" % idn)
         out.append("  cd_name := %s;" % coq_str(d["name"]))
         out.append("  cd_from_ast := %s;" % ("true" if d.get("source") == "clang-ast" else "false"))
